@@ -48,7 +48,17 @@ class WebLive:
         self.k('.py("klongpy.web")')
         self.calls = []
         self.k["wlog"] = self.wlog
+        self.k["wslow"] = self.wslow
         self.n = 0
+        import threading
+        self.slow_release = threading.Event()
+        self.slow_entered = threading.Event()
+        self.busy_done = 0
+
+    def wslow(self, x):
+        self.slow_entered.set()
+        self.slow_release.wait(8)
+        return "slow"
 
     def wlog(self, x, y, z):
         # x: "METHOD path", y: tag, z: parameter dictionary
@@ -79,6 +89,8 @@ class WebLive:
         for p in posts:
             self.define("POST", p, "v0")
             self.k(f'wp,"{p}",{self.hname("POST", p)}')
+        self.k("hslow::{wslow(x)}")
+        self.k('wg,"/slowx",hslow')          # outside the model's path set: only used to occupy the io loop
         self.k(f"wh::.web({self.port};wg;wp)")
         for _ in range(200):            # the listening socket is opened asynchronously
             try:
@@ -117,6 +129,84 @@ class WebLive:
             r = self.k(".webc(wh)")
         return int(r)
 
+    def webc_busy(self, hist):
+        """.webc while a handler occupies the io loop.  Returns the recorded events: the webc event at the moment .webc
+        returned and, when it returned while the handler was still running, the probe requests sent right then."""
+        import threading
+        gets = [e for e in hist if e["ev"] == "start"][0]["gets"]
+        probe_path = gets[0] if gets else "/zz"
+        self.slow_release.clear()
+        self.slow_entered.clear()
+        keep = http.client.HTTPConnection("127.0.0.1", self.port, timeout=10)
+        keep.request("GET", "/zz")
+        keep.getresponse().read()                      # keep-alive connection established before the shutdown
+        out = {}
+
+        def slow():
+            try:
+                c = http.client.HTTPConnection("127.0.0.1", self.port, timeout=10)
+                c.request("GET", "/slowx")
+                out["slow"] = c.getresponse().status
+                c.close()
+            except Exception as ex:   # noqa
+                out["slow"] = type(ex).__name__
+        ts = threading.Thread(target=slow, daemon=True)
+        ts.start()
+        if not self.slow_entered.wait(5):
+            self.slow_release.set()
+            raise MachineryError("slow handler was not entered")
+
+        def closer():
+            out["webc"] = self.webc()
+        tw = threading.Thread(target=closer, daemon=True)
+        tw.start()
+        tw.join(1.6)
+        events = []
+        if not tw.is_alive():
+            # .webc has returned although the handler is still running: the server is reported closed NOW
+            events.append({"ev": "webc", "res": out.get("webc", -1), "busy": True, "returned_while_handler_running": True})
+            res = {}
+
+            def probe(name, conn):
+                before = len(self.calls)
+                try:
+                    conn.request("GET", probe_path)
+                    r = conn.getresponse()
+                    r.read()
+                    res[name] = r.status
+                except Exception:   # noqa
+                    res[name] = 0
+            fresh = http.client.HTTPConnection("127.0.0.1", self.port, timeout=6)
+            before = len(self.calls)
+            tp = [threading.Thread(target=probe, args=("keepalive", keep), daemon=True),
+                  threading.Thread(target=probe, args=("fresh", fresh), daemon=True)]
+            for t in tp:
+                t.start()
+            time.sleep(0.3)
+            self.slow_release.set()
+            for t in tp:
+                t.join(8)
+            ts.join(8)
+            calls = self.calls[before:]
+            for name in ("keepalive", "fresh"):
+                st = res.get(name, 0)
+                events.append({"ev": "request", "method": "GET", "path": probe_path, "params": "p0", "status": st, "body": "",
+                               "calls": calls if (st and calls) else [], "probe": name})
+                calls = []
+        else:
+            self.slow_release.set()
+            tw.join(10)
+            ts.join(8)
+            if tw.is_alive():
+                raise MachineryError(".webc did not return after the handler was released")
+            events.append({"ev": "webc", "res": out.get("webc", -1), "busy": True})
+        try:
+            keep.close()
+        except Exception:   # noqa
+            pass
+        self.busy_done += 1
+        return events
+
     def stop_if_up(self):
         try:
             h = self.k["wh"]
@@ -141,6 +231,8 @@ class WebLive:
             elif ev == "redef":
                 self.define(e["method"], e["path"], e["tag"])
                 events.append(dict(e))
+            elif ev == "webc" and e.get("busy"):
+                events += self.webc_busy(hist)
             elif ev == "webc":
                 events.append({"ev": "webc", "res": self.webc()})
         self.stop_if_up()
@@ -313,6 +405,17 @@ def run(tier, seed):
         raise MachineryError("no web histories emitted")
     live = WebLive()
     traces = []
+    quota = 3 if not thorough else 40
+    nb = 0
+    keep = []
+    for h in hists:                      # a busy .webc costs ~2 s of wall clock: only a quota of them is replayed
+        if any(e["ev"] == "webc" and e.get("busy") for e in h):
+            if nb >= quota:
+                continue
+            nb += 1
+        keep.append(h)
+    hists = keep
+    ev.cov["webc_while_handler_running_histories"] = nb
     try:
         for h in hists:
             traces.append({"tid": len(traces), "events": live.run(h), "kind": "http"})
